@@ -1,7 +1,8 @@
 (** C11: every admin endpoint requires a valid session or credentials once a
     user exists.  Only statements here; proofs live in Proofs/AuthHttp.v and
     Proofs/Routes.v (the latter over the generated table Gen/Routes.v). *)
-From AGH Require Import Base.Run Model.Session Model.AuthHttp Proofs.AuthHttp Proofs.AuthCreds Proofs.AuthGlob Proofs.Routes Gen.Routes.
+From AGH Require Import Base.Run Model.Session Model.AuthHttp Proofs.AuthHttp Proofs.AuthCreds Proofs.AuthGlob Proofs.AuthMethod Proofs.AuthReload Proofs.Routes Gen.Routes.
+From stdpp Require Import gmap.
 Local Open Scope Z_scope.
 
 (** The chain httpRegister puts in front of a handler.  "Does not run [h]" is
@@ -253,3 +254,157 @@ Example C11_unusable_hash_premises_satisfiable :
             r_basic := BCred [97]%N [112]%N; r_tls := false; r_host_ok := true; r_hdrs := [] |}) = AHandler tt.
 Proof. exact unusable_hash_premises_satisfiable. Qed.
 Print Assumptions C11_unusable_hash_premises_satisfiable.
+
+(** ** Round 4: the method token; sessions loaded from sessions.db
+
+    A method is a byte string: net/http hands the token of the request line to
+    the handlers as sent ([post], [Post], [pOST], [POSTX] are not [POST]).
+    [ensure_gen meq m hl] is control.go's [ensure] with the comparison [meq]
+    of the sent method with the declared one as a parameter (the code:
+    byte-wise equality, [eqb_bytes]) and a handler [hl] that is told whether
+    [globalContext.controlLock] is held while it runs; [ensure m h] is
+    [ensure_gen eqb_bytes m (fun _ => h)], [apply_chain_l] is [apply_chain]
+    for such handlers.  [blocks_l] / [runs_l] are [blocks] / [runs] for them.
+
+    [ensure] alone, exactly: another method string => 405; the declared,
+    modifying method without a JSON content type (or with a content type and
+    no body) => 415; otherwise the handler runs, and the lock is held iff the
+    declared method is POST, PUT or DELETE. *)
+Theorem C11_ensure_gate : forall (A R : Type) (m : bytes) (e : env) (w : world A) (r : request),
+  (r_method r <> m /\ blocks_l (R := R) (ensure_gen eqb_bytes m) e w r w (AStatus 405)) \/
+  (r_method r = m /\ modifies_data m = true /\ ctype_ok r = false /\
+     blocks_l (R := R) (ensure_gen eqb_bytes m) e w r w (AStatus 415)) \/
+  (r_method r = m /\ (modifies_data m = true -> ctype_ok r = true) /\
+     runs_l (R := R) (ensure_gen eqb_bytes m) e w r w (modifies_data m)).
+Proof. exact (@ensure_gate). Qed.
+Print Assumptions C11_ensure_gate.
+
+(** The chain of httpRegister in front of a handler that sees the lock: it
+    answers by itself or runs the handler; if it runs it, the method is the
+    declared one, a modifying method came with JSON, the control lock is held
+    exactly for POST / PUT / DELETE, and the request is authenticated or the
+    path public. *)
+Theorem C11_chain_method_gate : forall (A R : Type) (m : bytes) (e : env) (w : world A) (r : request),
+  let W := fun hl : bool -> handler A R => apply_chain_l (http_register_chain m) hl false in
+  (exists w' a, blocks_l W e w r w' a /\ session_effect e w r w') \/
+  (exists w', runs_l W e w r w' (modifies_data m) /\ session_effect e w r w' /\
+     r_method r = m /\ (modifies_data m = true -> ctype_ok r = true) /\
+     (e_auth_required e = true -> is_public (r_path r) = true \/ authenticated e (w_sess w) r = true)).
+Proof. exact (@chain_method_gate). Qed.
+Print Assumptions C11_chain_method_gate.
+
+(** Authentication does not mask the method gate: for a request that
+    postInstall and optionalAuth hand on ([passes_auth]: no first run, no
+    HTTPS server, not /login.html, and authenticated / public path / no user),
+    the answer of the chain is decided by method and content type alone. *)
+Theorem C11_chain_gate_exact : forall (A R : Type) (m : bytes) (e : env) (w : world A) (r : request),
+  passes_auth e w r ->
+  let W := fun hl : bool -> handler A R => apply_chain_l (http_register_chain m) hl false in
+  exists w', session_effect e w r w' /\
+    ((r_method r <> m /\ blocks_l W e w r w' (AStatus 405)) \/
+     (r_method r = m /\ modifies_data m = true /\ ctype_ok r = false /\ blocks_l W e w r w' (AStatus 415)) \/
+     (r_method r = m /\ (modifies_data m = true -> ctype_ok r = true) /\ runs_l W e w r w' (modifies_data m))).
+Proof. exact (@chain_gate_exact). Qed.
+Print Assumptions C11_chain_gate_exact.
+
+(** Every method string other than the declared one, sent with valid
+    credentials: 405, the handler does not run.  In particular every case
+    variant of the declared method. *)
+Theorem C11_other_method_refused : forall (A R : Type) (m : bytes) (e : env) (w : world A) (r : request),
+  passes_auth e w r -> r_method r <> m ->
+  exists w', blocks (R := R) (apply_chain (http_register_chain m)) e w r w' (AStatus 405) /\ session_effect e w r w'.
+Proof. exact (@chain_other_method_405). Qed.
+Print Assumptions C11_other_method_refused.
+
+Theorem C11_case_variant_refused : forall (A R : Type) (m : bytes) (e : env) (w : world A) (r : request),
+  passes_auth e w r -> equal_fold (r_method r) m = true -> r_method r <> m ->
+  exists w', blocks (R := R) (apply_chain (http_register_chain m)) e w r w' (AStatus 405) /\ session_effect e w r w'.
+Proof. exact (@chain_case_variant_405). Qed.
+Print Assumptions C11_case_variant_refused.
+
+(** A handler that ignores the lock flag: the flagged chain is the plain one
+    (so the theorems of the earlier rounds speak about the same function). *)
+Theorem C11_flagged_chain_is_chain : forall (A R : Type) ws (h : handler A R) b e w r,
+  apply_chain_l ws (fun _ => h) b e w r = apply_chain ws h e w r.
+Proof. exact (@apply_chain_l_const). Qed.
+Print Assumptions C11_flagged_chain_is_chain.
+
+(** The lenient comparison ([strings.EqualFold], [modifiesData] left on the
+    raw spelling) is refuted: [post] + text/plain + a valid cookie runs the
+    handler of a POST route, outside the lock; the code answers 405. *)
+Example C11_ensure_fold_refuted :
+  let r := ex_req_m str_post str_text_plain in
+  r_method r <> str_POST /\ equal_fold (r_method r) str_POST = true /\ ctype_ok r = false /\
+  authenticated ex_env (w_sess ex_world) r = true /\
+  snd (apply_chain_l (http_register_chain str_POST) ex_handler_l false ex_env ex_world r) = AStatus 405 /\
+  (forall (A R : Type) (hl : bool -> handler A R) e w, ensure_gen equal_fold str_POST hl e w r = hl false e w r) /\
+  slip_fold_chain str_POST ex_handler_l ex_env ex_world r =
+    ({| w_app := 1%nat; w_sess := w_sess ex_world |}, AHandler tt).
+Proof. exact ensure_fold_refuted. Qed.
+Print Assumptions C11_ensure_fold_refuted.
+
+Example C11_gate_premises_satisfiable :
+  passes_auth ex_env ex_world (ex_req_m str_POST str_json) /\
+  apply_chain_l (http_register_chain str_POST) ex_handler_l false ex_env ex_world (ex_req_m str_POST str_json) =
+    ({| w_app := 2%nat; w_sess := w_sess ex_world |}, AHandler tt) /\
+  snd (apply_chain_l (http_register_chain str_POST) ex_handler_l false ex_env ex_world (ex_req_m str_POST str_text_plain)) = AStatus 415 /\
+  Forall (fun m => snd (apply_chain_l (http_register_chain str_POST) ex_handler_l false ex_env ex_world (ex_req_m m str_json)) = AStatus 405)
+    [str_post; str_Post; str_pOST; str_POSTX; str_GET; []] /\
+  apply_chain_l (http_register_chain str_GET) ex_handler_l false ex_env ex_world (ex_req_m str_GET str_text_plain) =
+    ({| w_app := 1%nat; w_sess := w_sess ex_world |}, AHandler tt).
+Proof. exact gate_premises_satisfiable. Qed.
+Print Assumptions C11_gate_premises_satisfiable.
+
+(** Every method-bound route of the current source is declared with GET,
+    POST, PUT or DELETE (re-checked each run), so "not GET" and "has the JSON
+    gate and the lock" coincide for the routes of the source. *)
+Theorem C11_routes_methods_canonical : forallb route_method_ok Gen.Routes.routes = true.
+Proof. exact all_routes_methods_canonical. Qed.
+Print Assumptions C11_routes_methods_canonical.
+
+Theorem C11_canonical_method_gate : forall m,
+  canonical_method m = true -> (modifies_data m = false <-> m = str_GET).
+Proof. exact canonical_method_gate. Qed.
+Print Assumptions C11_canonical_method_gate.
+
+(** Sessions that came into the table through InitAuth -> loadSessions
+    ([restart] of Model/Session.v): a cookie authenticates exactly when it is
+    the lower-case hex spelling of a stored token whose OWN record was
+    unexpired at the load and is unexpired now, whatever its neighbours in the
+    bucket are. *)
+Theorem C11_reloaded_authenticates : forall ttl now0 t tok st,
+  authenticates ttl t tok (restart now0 st) = true <->
+  exists raw s, tok = hex_encode raw /\ ss_disk st !! raw = Some s /\
+                (u32 now0 < s_expire s)%N /\ (u32 t < s_expire s)%N.
+Proof. exact reloaded_authenticates. Qed.
+Print Assumptions C11_reloaded_authenticates.
+
+(** Hence a cookie whose own stored record has run out is refused by every
+    chain containing optionalAuth. *)
+Theorem C11_reloaded_expired_refused : forall (A R : Type) ws e (w : world A) r tok st0 now0,
+  In WOptionalAuth ws -> e_auth_required e = true -> is_public (r_path r) = false ->
+  w_sess w = restart now0 st0 -> r_cookie r = CTok tok ->
+  (forall raw s, hex_encode raw = tok -> ss_disk st0 !! raw = Some s -> (s_expire s <= u32 (e_now e))%N) ->
+  exists w' (a : answer R), blocks (apply_chain ws) e w r w' a /\ session_effect e w r w'.
+Proof. exact (@reloaded_expired_refused). Qed.
+Print Assumptions C11_reloaded_expired_refused.
+
+(** A loader whose entries share one decoded value (each then carries the
+    expiry of the record decoded last) accepts the run-out cookie. *)
+Example C11_reload_shared_refuted :
+  let st := stored (list_to_map ex_recs) in
+  authenticates 3600 1003 (hex_encode [0]%N) (restart 1000 st) = false /\
+  authenticates 3600 1003 (hex_encode [1]%N) (restart 1000 st) = true /\
+  authenticates 3600 1003 (hex_encode [0]%N) (restart_shared 1000 ex_recs) = true.
+Proof. exact reload_shared_refuted. Qed.
+Print Assumptions C11_reload_shared_refuted.
+
+Example C11_reloaded_premises_satisfiable :
+  let st0 := stored (list_to_map ex_recs) in
+  let w := {| w_app := 0%nat; w_sess := restart 1000 st0 |} in
+  e_auth_required ex_reload_env = true /\ is_public (r_path (ex_req (CTok (hex_encode [0]%N)))) = false /\
+  (forall raw s, hex_encode raw = hex_encode [0]%N -> ss_disk st0 !! raw = Some s -> (s_expire s <= u32 (e_now ex_reload_env))%N) /\
+  snd (apply_chain (http_register_chain str_POST) ex_handler ex_reload_env w (ex_req (CTok (hex_encode [0]%N)))) = AStatus 403 /\
+  snd (apply_chain (http_register_chain str_POST) ex_handler ex_reload_env w (ex_req (CTok (hex_encode [1]%N)))) = AHandler tt.
+Proof. exact reloaded_premises_satisfiable. Qed.
+Print Assumptions C11_reloaded_premises_satisfiable.
